@@ -161,6 +161,15 @@ def gen_scripts(ctx, rng, n):
     for silent in ([], [40]):
         out.append({"peers": [30, 40], "silent": silent, "iocb": True, "a": {"max_apdu": 128, "retries": 1},
                     "chain": [30, 30], "script": [["req", 30], ["run", 0.0], ["req", 30], ["req", 40], ["run", 0.0], ["req", 30]]})
+    # long histories on ONE stack: more than 256 (and more than 512) requests, so that every
+    # per-stack counter (invoke id) wraps; answered at once, a few to a silent peer in between
+    for iocb in (False, True):
+        long = []
+        for k in range(530):
+            long.append(["req", 40 if k % 97 == 50 else 30])
+            if k % 8 == 7:
+                long.append(["run", 0.0])
+        out.append({"peers": [30, 40], "silent": [40], "iocb": iocb, "a": {"max_apdu": 128, "retries": 0}, "script": long})
     # the directed interleaving: requests submitted between housekeeping-timer operations in one instant
     out.append({"peers": [30, 40, 50], "silent": [30, 40, 50], "a": {"max_apdu": 128, "retries": 1},
                 "script": [["bg", 1000.0], ["req", 30], ["req", 40], ["bg", 1004.0], ["bg", 1005.0], ["req", 50],
